@@ -61,12 +61,14 @@ def _expr_tree(e):
 
 
 def groups(acc, shard, nshards, tier):
+    import itertools
+
     """==-groups / !=-groups (and single atoms) on one string variable, every ordered pair joined by and / or in one
     text, parenthesised: the group x group rules are only reached with four or more atoms on one variable."""
     acc.exhaustive_layers.add("L1-group-pair-texts")
     mod = sys.modules[MOD]
     i = 0
-    for case in c02.table_cases("str-group-pairs", tier):
+    for case in itertools.chain(c02.table_cases("str-group-pairs", tier), c02.table_cases("factored-pairs", tier), c02.table_cases("shared-child-unions", tier)):
         for op in ("and", "or"):
             i += 1
             if i % nshards == shard:
